@@ -12,6 +12,7 @@ from fractions import Fraction
 import numpy as real_np
 import z3
 
+from . import core
 from .core import (
     CTX,
     NANSYM,
@@ -1139,6 +1140,9 @@ def arg_extreme_1d(get, n, which):
     q = z3.Int(fresh_name("q"))
     vr = get(r).real()
     vq = get(Sym(q)).real()
+    if CTX._scopes and core._contains(vq, {vid for _, vid, _ in CTX._scopes}, {}):
+        # the extreme index would be a function of the Sigma bound variable, not one unknown
+        raise Outside("argmax/argmin of data that depends on a Sigma bound variable")
     if which == "max":
         CTX.assume(z3.ForAll([q], z3.Implies(z3.And(q >= 0, q < ext(n).t), vq <= vr)))
         CTX.assume(z3.ForAll([q], z3.Implies(z3.And(q >= 0, q < r.t), vq < vr)))
